@@ -10,7 +10,7 @@ use std::{
     ffi::{OsStr, OsString},
     fmt::Display,
     fs,
-    io::{self, BufRead, BufReader, Read},
+    io::{self, BufRead, BufReader, Read, Write},
     process::{Command, Stdio},
 };
 
@@ -523,14 +523,16 @@ impl CommandBuilder<'_> {
                 Ok(CommandResult::Success)
             }
             ExecAction::Echo => {
-                println!(
-                    "{}",
-                    self.extra_args
-                        .iter()
-                        .map(|arg| arg.to_string_lossy())
-                        .collect::<Vec<_>>()
-                        .join(" ")
-                );
+                // The arguments as they are, byte for byte (they need not be UTF-8).
+                let mut line = self
+                    .extra_args
+                    .iter()
+                    .map(|arg| arg.as_encoded_bytes())
+                    .collect::<Vec<_>>()
+                    .join(&b' ');
+                line.push(b'\n');
+                let mut stdout = io::stdout();
+                let _ = stdout.write_all(&line).and_then(|()| stdout.flush());
                 Ok(CommandResult::Success)
             }
         }
